@@ -518,6 +518,25 @@ impl Prop for C11b {
                 let d = spanning_diff(&t);
                 let _ = tp.next(2);
                 c = if tp.next(3) == 0 { alt(d, c) } else { d };
+            } else if i % 5 == 3 {
+                // a small left operand minus a class with many more pieces (16-24), whose pieces
+                // start inside / end beyond the left operand's ranges
+                let t = sample(&tapes, r);
+                let big = gen::many_piece_set(&t, 16 + i % 9);
+                if let Some(bc) = big.class() {
+                    let mut tp = gen::Tape::new(&t);
+                    let k = tp.next(bc.0.len() as u32 - 3) as usize;
+                    let ch = |v: u32| char::from_u32(v).unwrap_or('a');
+                    // from the middle of piece k (or just before it) to the middle of piece k+2
+                    let lo = bc.0[k].0 + tp.next(2) - tp.next(2).min(bc.0[k].0);
+                    let hi = (bc.0[k + 2].0 + bc.0[k + 2].1) / 2 + tp.next(2);
+                    let mut items = vec![SetItem::R(ch(lo), ch(hi.max(lo)))];
+                    if tp.next(2) == 1 {
+                        let far = bc.0[bc.0.len() - 1].1 + 5;
+                        items.push(SetItem::R(ch(far), ch(far + 9)));
+                    }
+                    c = gen::mk_diff(Re::Set(items), big);
+                }
             } else if i % 5 == 2 {
                 // ten or more individually listed characters (no ranges)
                 let many = gen::many_char_set(&sample(&tapes, r), 10 + i % 7);
@@ -782,6 +801,21 @@ impl Prop for C13 {
                 if i != j {
                     pairs.push((*a, *b));
                 }
+            }
+        }
+        // class-level combinations of two built-ins: difference and union
+        {
+            let n_comb = tier.pick(40, pairs.len());
+            let start = (seed() as usize * 11) % pairs.len();
+            for k in 0..n_comb {
+                let (a, b) = pairs[(start + k * 17) % pairs.len()];
+                let (ca, cb) = (builtin_cls(a).unwrap(), builtin_cls(b).unwrap());
+                let d = diff(Re::Builtin(a.into()), Re::Builtin(b.into()));
+                if !ca.minus(cb).is_empty() {
+                    out.push(("builtin-difference", class_spec(d, if k % 3 == 0 { Shape::Ctx } else { Shape::Loop }, vec![])));
+                }
+                let u = alt(Re::Builtin(a.into()), Re::Builtin(b.into()));
+                out.push(("builtin-union", class_spec(u, if k % 3 == 1 { Shape::Ctx } else { Shape::Loop }, vec![])));
             }
         }
         let n_pairs = tier.pick(30, pairs.len());
